@@ -51,7 +51,7 @@ call sequences    C17/call-sequence (orc_call_sequence): t(A), t(B), t(A) with B
 environment       C17/hashseed (orc_hashseed): a batch of cases of the oracles in new interpreters with other PYTHONHASHSEED
 competitor sets / file order: nothing in this property (the geodesic clause is checked against exact Floyd-Warshall lengths)
 
-Defects found by the sweeps, registrations behind `if False:  # pending triage` in _sweeps
+Defects found by the sweeps, registrations behind `if False:  # pending triage` in _sweeps   [TRIAGED since: every class repaired in /repo, recorded as open finding, or dropped -- DESIGN.md 10.10]
 * 'integer-typed' (minmax_transform, and geodesic_transform through it): the result is written back into the integer array
   and truncated to 0 / 1 -- RDMs(np.array([[3, 1, 7, 200, 5, 1]])) -> [0, 0, 0, 1, 0, 0]; geodesic -> all 0
 * 'sqrt,8-bit-integer-typed' (sqrt_transform of int8 / uint8 RDMs): np.sqrt of an 8-bit array is float16 -- sqrt(5) = 2.2363
